@@ -114,7 +114,8 @@ func (pr *ProtoArray) CanonicalChain(anchorRoot Root, anchorSlot Slot) ([]Extend
 	}
 	chain := make([]ExtendedNodeRef, 0, len(pr.nodes))
 	index := pr.indices[head]
-	for index != NONE && index >= pr.indexOffset {
+	anchorIndex := pr.indices[NodeRef{Root: anchorRoot, Slot: anchorSlot}]
+	for index != NONE && index >= anchorIndex {
 		node, err := pr.getNode(index)
 		if err != nil {
 			return nil, err
